@@ -342,11 +342,12 @@ def r5_refusal(cx):
                     if who[0] == "call" and who[1] == T.Q_STATE and pa.root(h, Call(h, who[2]).args[0]) == pa.root(h, x.args[0]):
                         ok_open = True
             # the task is proc(action.pid).task(action.tid)
-            t = pa.root(h, x.args[0])
+            from vlib.model import strip_try
+            t = strip_try(h, pa, pa.root(h, x.args[0]))
             if t[0] == "call" and t[1].endswith("Process::task"):
                 tc = Call(h, t[2])
                 tid = pa.root(h, tc.args[1])
-                pr = pa.root(h, tc.args[0])
+                pr = strip_try(h, pa, pa.root(h, tc.args[0]))
                 pid = pa.root(h, Call(h, pr[2]).args[1]) if pr[0] == "call" and pr[1].endswith("Cache::proc") else None
                 act = pa.root(g, c.args[1])
                 if chain:
@@ -355,7 +356,7 @@ def r5_refusal(cx):
                 ok_task = pid is not None and tid[:3] == act[:3] and pid[:3] == act[:3] and tuple(y for y in tid[3] if y != "*")[-1:] == ("tid",) and tuple(y for y in pid[3] if y != "*")[-1:] == ("pid",)
             # the error stored is the refusal, and the emit follows on the same context's task
             ctxr = pa.root(h, em[0].args[0])
-            ok_emit = h.dominates(x.b, em[0].b) and ctxr[0] == "call" and ctxr[1].endswith("Task::create_context") and pa.root(h, Call(h, ctxr[2]).args[0]) == t
+            ok_emit = h.dominates(x.b, em[0].b) and ctxr[0] == "call" and ctxr[1].endswith("Task::create_context") and strip_try(h, pa, pa.root(h, Call(h, ctxr[2]).args[0])) == t
             break
         if len(chain) < 2:
             for y in h.calls():
